@@ -23,7 +23,12 @@ Theorem c16_behind_entries_only : forall (fx : bool) (params : nat) (user_ctrls 
     wire s' = {| q_params := params; q_ctrls := user_ctrls ++ [CPaged size []] |} :: followups params user_ctrls size (p_result p) rest.
 Proof. exact Paged.c16_behind_entries_only. Qed.
 
+(* the other response controls of the final result come through untouched and in order, wherever the paging control sat among them *)
+Theorem c16_final_keeps_other_controls : forall r : result, (forall c1 c2 : ctl, In c1 (ctrls r) -> In c2 (ctrls r) -> is_paged c1 = true -> is_paged c2 = true -> c1 = c2) -> NoDup (ctrls r) -> ctrls (final_of r) = others (ctrls r) /\ rc (final_of r) = rc r.
+Proof. exact Paged.c16_final_keeps_other_controls. Qed.
+
 Print Assumptions c16.
 Print Assumptions c16_rejects_caller_paging_control.
 Print Assumptions c16_final_has_no_paging.
 Print Assumptions c16_behind_entries_only.
+Print Assumptions c16_final_keeps_other_controls.
